@@ -75,6 +75,42 @@ theorem nodup_map_of_inj_on {α β : Type} (f : α → β) (l : List α)
     have := hinj y (List.mem_cons_of_mem _ hy) x List.mem_cons_self hxy
     exact hnd.1 (this ▸ hy)
 
+/-! ### association-list lookup -/
+
+theorem lookupT_mem {β : Type} {k : Text} {l : List (Text × β)} {v : β} (h : lookupT k l = some v) : (k, v) ∈ l := by
+  induction l with
+  | nil => simp [lookupT] at h
+  | cons x l ih =>
+    obtain ⟨k', v'⟩ := x
+    simp only [lookupT] at h
+    split at h
+    · next hk => simp only [Option.some.injEq] at h; subst hk; subst h; exact List.mem_cons_self
+    · exact List.mem_cons_of_mem _ (ih h)
+
+theorem lookupT_none {β : Type} {k : Text} {l : List (Text × β)} (h : k ∉ keysOf l) : lookupT k l = none := by
+  induction l with
+  | nil => rfl
+  | cons x l ih =>
+    obtain ⟨k', v'⟩ := x
+    simp only [keysOf, List.map_cons, List.mem_cons, not_or] at h
+    simp only [lookupT]
+    rw [if_neg (fun hk => h.1 hk.symm)]
+    exact ih h.2
+
+theorem lookupT_isSome {β : Type} {k : Text} {l : List (Text × β)} (h : k ∈ keysOf l) : ∃ v, lookupT k l = some v := by
+  induction l with
+  | nil => cases h
+  | cons x l ih =>
+    obtain ⟨k', v'⟩ := x
+    simp only [keysOf, List.map_cons, List.mem_cons] at h
+    simp only [lookupT]
+    by_cases hk : k' = k
+    · exact ⟨v', by rw [if_pos hk]⟩
+    · rw [if_neg hk]
+      rcases h with h | h
+      · exact absurd h.symm hk
+      · exact ih h
+
 /-! ### dedup -/
 
 theorem mem_dedup {a : Text} {l : List Text} : a ∈ dedup l ↔ a ∈ l := by
